@@ -5,6 +5,7 @@ CONSTANTS
     Hedging = TRUE
     MaxHedges = 2
     Kinds = {"ok", "err", "short"}
+    HedgeKinds = {"ok", "err", "short"}
     Probes = {"parallel", "headError", "noRanges", "small", "tooLarge"}
     Fixed = TRUE
     Eager = FALSE
